@@ -130,8 +130,12 @@ sortField: IDENTIFIER (WS+ (ASC | DESC))? #SortFieldExpr;
 boolExpr:
   operation #OperationOp
   | LPAREN WS* boolExpr WS* RPAREN #Group
-  | boolExpr (WS+ AND WS+ boolExpr)+ #AndExpr
-  | boolExpr (WS+ OR WS+ boolExpr)+ #OrExpr
+  // AND binds tighter than OR. The operators must be plain binary alternatives: a recursive reference inside a
+  // ( ... )+ block is parsed at precedence 0, which made `a and b or c` read as `a and (b or c)`. Right
+  // associative, so that every AndExpr/OrExpr has exactly the two operands the listener pops.
+  // NOTE: zitiql_parser.go was patched by hand to match (boolExpr(6) / boolExpr(5) for the right operands)
+  | <assoc=right> boolExpr WS+ AND WS+ boolExpr #AndExpr
+  | <assoc=right> boolExpr WS+ OR WS+ boolExpr #OrExpr
   | BOOL #BoolConst
   | ISEMPTY LPAREN WS* setExpr WS* RPAREN #IsEmptyFunction
   | IDENTIFIER #BoolSymbol
